@@ -42,21 +42,45 @@ def run(chk):
         ml = [c for c in cases if c["class"] == "maplit-types"]
         rnd.shuffle(ml)
         cases = keep + ml[:160]
+    # programs nobody wrote for this property: the rule-breaking programs of FamBreak (their diagnostics) and token
+    # edits of valid programs (FamMutate; mostly rejected, often with several diagnostics), fewer repetitions each
+    resb = common.run_tlc("FamBreak", "FamBreak.cfg", defines={"TIER": chk.tier}, timeout=900)
+    chk.add_tlc(resb, "FamBreak")
+    wide = [{"id": "det-brk-%d" % n, "stage": "determinism", "src": c["src"], "reps": 8, "class": "rule-break/%s" % c["rule"],
+             "expect": {"claim": "8 repetitions byte-identical"}} for n, c in enumerate(resb.cases)]
+    npos = 260
+    e1 = {kind * 1000000 + i * 100 for kind in (1, 4, 5) for i in range(npos)}
+    e2 = set()
+    for _ in range(600 if chk.tier == "quick" else 6000):
+        e = rnd.choice((1, 2, 3, 4, 5)) * 1000000 + rnd.randrange(npos) * 100 + rnd.randrange(40)
+        e2.add(e * 10 + rnd.randrange(10))
+    tlaset = lambda xs: "{" + ", ".join(str(x) for x in sorted(xs)) + "}"
+    resm = common.run_tlc("FamMutate", "FamMutate.cfg", defines={"TIER": chk.tier, "EDITS1": tlaset(e1), "EDITS2": tlaset(e2),
+                                                                 "HEADERS": "{}", "HEADERS2": "{}"}, timeout=1800)
+    chk.add_tlc(resm, "FamMutate")
+    muts = [{"id": "det-mut-%d" % n, "stage": "determinism", "src": c["src"], "reps": 6, "class": "edited/seed%d" % c["seed"],
+             "expect": {"claim": "6 repetitions byte-identical"}} for n, c in enumerate(resm.cases)]
+    if chk.tier == "quick":
+        rnd.shuffle(muts)
+        muts = muts[:2500]
+    wide += muts
+    chk.extra["programs_of_other_families"] = len(wide)
+    cases += wide
     results = common.replay(cases, deadline="60s", name="det")
     for c in cases[:1] + [x for x in cases if x["class"] == "unused"][:1] + [x for x in cases if x["class"] == "maplit-types"][:1]:
         chk.sample({"source": machine.text_of(c["src"]), "class": c["class"], "repetitions": reps,
                     "first_observation": {k: (results[c["id"]].get("obs") or {}).get(k) for k in ("parseErr", "result")}})
     for c in cases:
         r = results[c["id"]]
-        chk.evaluations += reps
-        chk.traces += reps
+        chk.evaluations += c["reps"]
+        chk.traces += c["reps"]
         chk.nontrivial.add(machine.text_of(c["src"]))
         if not r["ok"]:
             chk.mismatch(c["class"], r.get("diff", ""), {"case": c, "result": r})
     # fresh processes: evy run / evy fmt twice each, byte-identical stdout, stderr, status
     common.build_evy()
     tmp = common.scratch("c08cli")
-    sel = [c for c in cases if c["class"] != "run-state"]
+    sel = [c for c in cases if c["class"] != "run-state" and not c["class"].startswith("edited/")]
     rnd.shuffle(sel)
     sel = [c for c in cases if c["class"] == "run-state"] + sel[: 40 if chk.tier == "quick" else 300]
     nproc = 0
@@ -78,7 +102,8 @@ def run(chk):
     chk.rule = ("GoMapFold.tla: all enumeration orders of all instances (<= 4 entries) of the folds the implementation performs "
                 "over Go maps; FamDeterminism: map literals over 8 value kinds^3 (variables, literals, empties, different types), "
                 "map literals with side effects, 2-5 unused variables per scope kind, font maps with several bad properties, programs "
-                "with many errors / handlers, programs that read the run state first (err, errmsg, rand, rand1, test counts) and change it last; each parsed, formatted and run %d times in one process and 3 times in fresh processes; "
+                "with many errors / handlers, programs that read the run state first (err, errmsg, rand, rand1, test counts) and change it last; each parsed, formatted and run %d times in one process and 3 times in fresh processes; the rule-breaking "
+                "programs of FamBreak (8 times) and token edits of valid programs of FamMutate (6 times), whose diagnostics must repeat; "
                 "non-trivial = distinct program" % reps)
     chk.exhaustive = False
     chk.assumptions += ["Go map order cannot be scheduled: an order-dependent result escapes %d repetitions with probability <= 2^-%d" % (reps, reps - 1),
